@@ -437,7 +437,7 @@ class Ctx:
 
     def longest_prefix(self, res):
         m = None
-        for m in re.finditer(r"VERIF_HWM=(\d+)", res.out):
+        for m in re.finditer(r"VERIF_HWM\"?[=,]\s*(\d+)", res.out):
             pass
         return int(m.group(1)) if m else None
 
